@@ -25,8 +25,8 @@ theorem getLatest_keep_one (m : RevMap) (r k : Right) : (m.keep r 1).getLatest k
     | none => rfl
     | some c =>
       cases c with
-      | nil => simp
-      | cons a as => simp
+      | nil => simp [RevMap.keepN]
+      | cons a as => simp [RevMap.keepN]
   · simp [hk]
 
 end RevMap
